@@ -202,3 +202,130 @@ def tapscript_programs(ex, program, lens, discourage):
     except _core.ScriptErr:
         ref_ok = False
     return {"same_verdict_as_bip342": lib_ok == ref_ok}
+
+
+# ------------------------------------------------------------------ BIP342 codesep_pos: the opcode position of the last executed OP_CODESEPARATOR
+_CS_ITEMS = {"A": ("515188", 3, None), "B": ("51519d", 3, None), "N": ("61", 1, None), "P": ("010775", 2, None), "S": ("ab", 1, "always"), "I": ("63ab68", 3, "cond"),
+             "V": ("5169", 2, None), "X": ("0051ba75", 4, None)}     # V: 1 VERIFY; X: <empty sig> 1(as key) CHECKSIGADD DROP -- not used with the stubbed checksig
+
+
+def _cs_params(tier):
+    import itertools
+    names = ["A", "B", "N", "P", "S", "I", "V"]
+    out = []
+    for n in (1, 2, 3) if tier == "quick" else (1, 2, 3, 4):
+        for combo in itertools.product(names, repeat=n):
+            if not any(c in ("S", "I") for c in combo):
+                continue
+            if tier == "quick" and n == 3 and not any(c in ("A", "B", "V") for c in combo[:2]):
+                continue
+            if n == 4 and sum(c in ("S", "I") for c in combo) != 2:
+                continue
+            out.append(dict(program="".join(combo)))
+    return out
+
+
+@ob("C08", "tapscript_codesep_pos_is_the_opcode_position", quick=_cs_params("quick"), thorough=_cs_params("thorough"),
+    bound="tapscripts made of 1..3 (thorough 4) items from {1 1 EQUALVERIFY, 1 1 NUMEQUALVERIFY, NOP, push DROP, 1 VERIFY, CODESEPARATOR, IF CODESEPARATOR ENDIF with a symbolic condition} followed by "
+          "<32-byte key> CHECKSIG: the codesep_pos handed to the signature check is BIP342's -- the opcode position (a push counts one, compound *VERIFY opcodes count one) of the last "
+          "executed OP_CODESEPARATOR, 0xffffffff if none",
+    stubs=["tapscript.op_checksig records its codesep_pos argument and pushes true (the signature check proper is tapscript_checksig_rules_vs_bip342's subject)"],
+    functions=["btclib.script.engine.tapscript._run_ops", "btclib.script.engine.tapscript.verify_script_path_vc0"], min_ok=1, timeout=300)
+def codesep_pos(ex, program):
+    script = b""
+    pos = 0
+    expected = 0xFFFFFFFF
+    conds = []
+    for c in program:
+        hx, nops, eff = _CS_ITEMS[c]
+        script += bytes.fromhex(hx)
+        if eff == "always":
+            expected = pos
+        elif eff == "cond":
+            cnd = ex.bool(f"cond{len(conds)}")
+            conds.append(cnd)
+            expected = ite(cnd, pos + 1, expected)
+        pos += nops
+    script += b"\x20" + b"\x07" * 32 + b"\xac"
+    seen = []
+
+    def fake_checksig(stack, script_bytes, codesep_pos, tx, i, prevouts, annex, budget, flags, precomputed=None, hash_types=None):
+        stack.pop()
+        stack.pop()
+        seen.append(codesep_pos)
+        stack.append(b"\x01")
+        return budget
+    ex.stub(tapscript.op_checksig, fake_checksig)
+    # the IFs consume their conditions from the top of the stack, first IF first
+    stack = [b"\x05" * 64] + [(b"\x01" if bool(c) else b"") for c in reversed(conds)]
+    tx, prevouts = _ctx()
+    try:
+        tapscript.verify_script_path_vc0(script, stack, prevouts, tx, 0, b"", 1000, ScriptFlag(0))
+    except (ScriptError, BTClibValueError):
+        return {"honest_script_runs": False}
+    return {"one_signature_check": len(seen) == 1, "codesep_pos_is_bip342s": (seen[0] == expected) if seen else False}
+
+
+# ------------------------------------------------------------------ the v1 arm of VerifyWitnessProgram: annex, budget, key path vs script path, leaf version
+from btclib.script import engine as _engine
+
+
+def _ser_size(stack):
+    n = 1            # CompactSize of the element count (< 253 elements here)
+    for e in stack:
+        n += (1 if len(e) < 253 else 3) + len(e)
+    return n
+
+
+@ob("C08", "taproot_arm_dispatch_and_sigops_budget", quick=[dict(n=n, annex=a, big=b) for n in (0, 1, 2, 3) for a in (0, 1) for b in (0, 1)],
+    bound="witness stacks of 0..3 elements plus an optional annex (first byte 0x50, optionally 300 bytes long), the control block's first byte symbolic, DISCOURAGE_UPGRADABLE_TAPROOT_VERSION on and off "
+          "(symbolic): empty stack refused; one element -> key path; otherwise script path with the script and control block taken from the end, the annex handed on, leaf versions other than 0xc0 "
+          "accepted unless discouraged, and the budget handed to the tapscript is 50 + the serialized size of the whole witness, annex included (BIP342)",
+    stubs=["taproot_unwrap_script answers as if the commitment verified (C12 covers it); verify_key_path and verify_script_path_vc0 record their arguments"],
+    functions=["btclib.script.engine._verify_taproot", "btclib.script.engine.taproot_get_annex"], min_ok=1, timeout=300)
+def taproot_arm(ex, n, annex, big):
+    b0 = ex.int("control0", 0, 255)
+    discourage = ex.bool("discourage")
+    elements = [bytes([0x10 + k]) * (3 + k) for k in range(n)]
+    if n >= 2:
+        elements[-1] = bytes([b0]) + b"\x09" * 32        # control block
+    annex_b = (b"\x50" + b"\xaa" * (299 if big else 2)) if annex else b""
+    full = elements + ([annex_b] if annex else [])
+    witness = Witness(full, check_validity=False)
+    calls = []
+
+    def fake_unwrap(script, stack):
+        return stack[-2], stack[:-2], stack[-1][0] & 0xFE
+
+    def fake_key_path(script, stack, prevouts, tx, i, annex_, precomputed=None, hash_types=None):
+        calls.append(("key", list(stack), annex_, None))
+
+    def fake_script_path(script_bytes, stack, prevouts, tx, i, annex_, budget, flags, precomputed=None, hash_types=None):
+        calls.append(("script", list(stack), annex_, budget, script_bytes))
+    ex.stub(_engine.taproot_unwrap_script, fake_unwrap)
+    ex.stub(tapscript.verify_key_path, fake_key_path)
+    ex.stub(tapscript.verify_script_path_vc0, fake_script_path)
+    tx, prevouts = _ctx()
+    flags = ScriptFlag.DISCOURAGE_UPGRADABLE_TAPROOT_VERSION if discourage else ScriptFlag(0)
+    # a one-element stack that looks like an annex is still the key path's signature: BIP341 needs at least two elements for an annex
+    try:
+        _engine._verify_taproot(b"\x51\x20" + b"\x07" * 32, witness, prevouts, tx, 0, flags, None, None)
+        ok = True
+    except (BTClibValueError, ScriptError):
+        ok = False
+    # BIP341: with at least two elements, a last element starting with 0x50 is the annex -- also when it was meant as a control block
+    has_annex = len(full) >= 2 and bool(full[-1][0] == 0x50)
+    stack = full[:-1] if has_annex else full
+    want_annex = full[-1] if has_annex else b""
+    if len(stack) == 0:
+        return {"empty_stack_refused": not ok}
+    if len(stack) == 1:
+        return {"key_path_taken": sand(ok, len(calls) == 1, calls[0][0] == "key" if calls else False, (calls[0][2] == want_annex) if calls else False)}
+    leaf_version = stack[-1][0] & 0xFE
+    if not ok:
+        return {"refused_only_a_discouraged_leaf_version": sand(leaf_version != 0xC0, discourage)}
+    if not calls:
+        return {"unknown_leaf_version_accepted_without_running": sand(leaf_version != 0xC0, snot(discourage))}
+    c = calls[0]
+    return {"script_path_arguments": sand(leaf_version == 0xC0, c[0] == "script", c[1] == stack[:-2], c[2] == want_annex, c[4] == stack[-2]),
+            "budget_is_50_plus_whole_witness_size": c[3] == 50 + _ser_size(full)}
